@@ -165,6 +165,31 @@ def run(ck, tier):
             ck.ok("C07.nan-before-compare", which, "%d is_nan tests dominate %d comparison site(s)" % (len(nanb), len(cmpb)))
         else:
             ck.bad("C07.nan-before-compare", which, "%s compares values without testing is_nan first (%d is_nan calls, %d comparison sites): NaN could become a bound" % (fid, len(nanb), len(cmpb)), "%s:%s" % (fns[0]["file"], fns[0]["line"]))
+    ck.rule("C07.minmax-polarity", "in the statistics converter, functions that surface maxima never read a min_* accessor and vice versa (a swapped iterator in one "
+            "macro arm reports each page's minimum as its maximum for that type only)", floor=40)
+    for fn in F.crate("parquet").fns:
+        if "mir" not in fn:
+            continue
+        root = fn.get("parent") if fn["kind"] == "Closure" else fn["id"]
+        if not root.startswith("parquet::arrow::arrow_reader::statistics"):
+            continue
+        nm = root.split("::")[-1]
+        pol = "max" if ("max" in nm and "min" not in nm) else ("min" if ("min" in nm and "max" not in nm) else None)
+        if not pol:
+            continue
+        opp = "min" if pol == "max" else "max"
+        b = Body(fn)
+        hits = []
+        for bb, t in b.calls():
+            cn = callee(t) or ""
+            last = flow.norm(cn).split("::")[-1]
+            if re.search(r"(^|_)%s(_|$)" % opp, last) and not re.search(r"(^|_)%s(_|$)" % pol, last) and "std::cmp" not in cn and "Iterator" not in cn and "Ord::" not in cn:
+                hits.append((b.loc(bb), last))
+        key = flow.norm(fn["id"])
+        if hits:
+            ck.bad("C07.minmax-polarity", key, "%s (a %s-statistics function) reads %s: the surfaced %s bound is taken from the %s side" % (fn["id"], pol, hits, pol, opp), hits[0][0])
+        else:
+            ck.ok("C07.minmax-polarity", key, "no %s_* accessor used" % opp)
     ck.note("Decided: bloom insertion independent of the statistics switch and min/max update in both sibling encoders, direction of truncation, origin of the "
             "exact flags, can_truncate_value() guards, NaN test before comparison. Not decided: comparison per sort order, increment carry logic, Sbbf hashing.")
     return F.info
